@@ -463,12 +463,18 @@ def recheck_hangs(chk, scen_name, results, classof):
     return results
 
 
-def validate_parallel(chk, model, scen, results, nproc=8, cost=None):
+def validate_parallel(chk, model, scen, results, nproc=8, cost=None, skip=None):
     """`Check.validate` with the driver run as `nproc` processes over cost-balanced chunks (the replay of a
-    long history through the model is the slow part; same bookkeeping as core.Check.validate)."""
+    long history through the model is the slow part; same bookkeeping as core.Check.validate).  Cases for
+    which `skip(case)` holds are not replayed (said in the evidence notes): the monitor alone judges them."""
     import core
     from concurrent.futures import ThreadPoolExecutor
-    idx = sorted(range(len(results)), key=(lambda k: -cost(results[k][0])) if cost else None)
+    skipped = [k for k in range(len(results)) if skip and skip(results[k][0])]
+    if skipped:
+        chk.notes.append(f'{len(skipped)} cases were not replayed through the model driver (history too long for the quadratic '
+                         f'replay); the monitor evaluated them')
+    idx = sorted((k for k in range(len(results)) if k not in set(skipped)),
+                 key=(lambda k: -cost(results[k][0])) if cost else None)
     chunks = [idx[i::nproc] for i in range(nproc) if idx[i::nproc]]
 
     def run(ch):
@@ -486,6 +492,8 @@ def validate_parallel(chk, model, scen, results, nproc=8, cost=None):
                     verdict[w[1]] = l
     nval = 0
     for k, (case, res) in enumerate(results):
+        if k in skipped:
+            continue
         v = verdict.get(str(k))
         if v is None:
             chk.corr_breaks.append(dict(model=model, case=case, verdict='no answer from the driver', events=res.get('events')))
@@ -494,7 +502,7 @@ def validate_parallel(chk, model, scen, results, nproc=8, cost=None):
         else:
             chk.corr_breaks.append(dict(model=model, case=case, verdict=v, events=res.get('events'), monitors=res.get('monitors')))
     chk.cov['traces_validated_against_impl'] += nval
-    return nval, len(results)
+    return nval, len(results) - len(skipped)
 
 
 def run_case(case):
